@@ -120,7 +120,11 @@ impl<B: Backend> AudioManager<B> {
 	) -> Result<TrackHandle, ResourceLimitReached> {
 		let (mut track, handle) =
 			builder.build(self.renderer_shared.clone(), self.internal_buffer_size);
+		#[cfg(kira_verif)]
+		crate::verif::yield_point("add_track.rate.load");
 		track.init_effects(self.renderer_shared.sample_rate.load(Ordering::SeqCst));
+		#[cfg(kira_verif)]
+		crate::verif::yield_point("add_track.insert");
 		self.resource_controllers
 			.sub_track_controller
 			.insert(track)?;
@@ -140,7 +144,11 @@ impl<B: Backend> AudioManager<B> {
 			listener.into(),
 			position.into().to_(),
 		);
+		#[cfg(kira_verif)]
+		crate::verif::yield_point("add_track.rate.load");
 		track.init_effects(self.renderer_shared.sample_rate.load(Ordering::SeqCst));
+		#[cfg(kira_verif)]
+		crate::verif::yield_point("add_track.insert");
 		self.resource_controllers
 			.sub_track_controller
 			.insert(track)?;
@@ -158,7 +166,11 @@ impl<B: Backend> AudioManager<B> {
 			.try_reserve()?;
 		let id = SendTrackId(key);
 		let (mut track, handle) = builder.build(id, self.internal_buffer_size);
+		#[cfg(kira_verif)]
+		crate::verif::yield_point("add_track.rate.load");
 		track.init_effects(self.renderer_shared.sample_rate.load(Ordering::SeqCst));
+		#[cfg(kira_verif)]
+		crate::verif::yield_point("add_track.insert");
 		self.resource_controllers
 			.send_track_controller
 			.insert_with_key(key, track);
